@@ -157,6 +157,48 @@ func c20Build(rng *rand.Rand, ents []c20Ent, rich bool) c20Doc {
 	return d
 }
 
+// c20Prolog: what the small prolog document puts before its root element.
+const c20Prolog = "<?xml version=\"1.0\" encoding=\"UTF-8\"?>\n<!-- comment -->\n"
+
+// c20WithProlog puts an XML declaration, a newline, a comment and a newline
+// before the root element of d.
+func c20WithProlog(d c20Doc) c20Doc {
+	n := len(c20Prolog)
+	p := c20Doc{ents: d.ents, text: append([]byte(c20Prolog), d.text...)}
+	for i := range d.start {
+		p.start = append(p.start, d.start[i]+n)
+		p.end = append(p.end, d.end[i]+n)
+	}
+	p.rootStartEnd, p.rootEndStart, p.rootEndEnd = d.rootStartEnd+n, d.rootEndStart+n, d.rootEndEnd+n
+	return p
+}
+
+// prologShape names where a cut before the root element falls (for messages).
+func (d c20Doc) prologShape(off int) string {
+	decl := strings.Index(c20Prolog, "?>") + 2
+	cmt := strings.Index(c20Prolog, "<!--")
+	cmtEnd := strings.Index(c20Prolog, "-->") + 3
+	switch {
+	case off == 0:
+		return "empty input"
+	case off < decl:
+		return "inside the XML declaration"
+	case off == decl:
+		return "right after the XML declaration"
+	case off <= cmt:
+		return "in the white space after the XML declaration"
+	case off < cmtEnd:
+		return "inside the comment"
+	case off == cmtEnd:
+		return "right after the comment"
+	case off <= len(c20Prolog):
+		return "in the white space before the root element"
+	case off < d.rootStartEnd:
+		return "inside the root start tag"
+	}
+	return "after the root start tag"
+}
+
 func c20RandomDoc(rng *rand.Rand, k int, rich bool, maxSeq int) c20Doc {
 	ents := make([]c20Ent, k)
 	for i := range ents {
@@ -654,6 +696,34 @@ func TestVerifC20(t *testing.T) {
 		}
 	}
 
+	// (4) both tiers: a second small document (2 entries) that starts with an XML
+	// declaration, a newline, a comment and a newline before the root element,
+	// cut at EVERY byte offset: cuts inside and after the declaration, inside
+	// and after the comment and in the white space before the root included.
+	// Added last and with its own stream for the capacities, so that the cases
+	// above stay what they were.
+	prologDoc := c20WithProlog(c20Build(rng, []c20Ent{{[]string{"P7"}, []string{"N7"}, "MA"}, {[]string{"P8", "Q8"}, []string{"N8"}, "ML"}}, false))
+	{
+		saved := rng
+		rng = rand.New(rand.NewSource(seed ^ 0x2020))
+		d := prologDoc
+		for off := 0; off < len(d.text); off++ {
+			modes := []int{off % 2}
+			if thorough {
+				modes = []int{0, 1}
+			}
+			for _, mode := range modes {
+				desc := fmt.Sprintf("cut at byte offset %d, %s (prefix ends %s) of %s", off, d.prologShape(off), strconv.Quote(c20Clip(string(d.text[c20Max(0, off-24):off]), 40)), docDesc(d))
+				if off >= d.rootEndEnd {
+					addParse(d.text[:off], mode, true, "", d.ents, false, desc)
+					continue
+				}
+				addParse(d.text[:off], mode, false, d.truncShape(off), d.ents[:d.before(off)], true, desc)
+			}
+		}
+		rng = saved
+	}
+
 	// ------------------------------------------------------------ observe
 	queues := make([][]c20Case, workers)
 	// damaged cases (which may each cost a full deadline) are spread evenly
@@ -682,7 +752,7 @@ func TestVerifC20(t *testing.T) {
 	vE := newVerifRun("C20", "io/uniprot.Parse/post/entries", common+
 		fmt.Sprintf("well-formed documents with every k in 0..200 entries (%d seeded document(s) each; 1..3 accessions, 1..2 names, sequence text 1..60 letters; compact layout or the layout of the real dump with prolog, attributes, nested <name> elements, comments, copyright), channel capacities drawn from 0..100 with every capacity 0..100 used on each channel, plus cuts of small documents that lose only trailing white space; non-trivial = k >= 1", reps))
 	vD := newVerifRun("C20", "io/uniprot.Parse/post/damaged-prefix", common+
-		fmt.Sprintf("%d small document(s) (<= 3 entries) cut at EVERY byte offset before the end of the root element (exhaustive, %s); %d larger documents (2..200 entries) damaged in or before a chosen entry: mismatched end tag, '< ' or '& ' in text, byte 0x01, missing </entry>, unterminated start tag, '<<' between entries, cut at a random offset; plain through Parse (capacities 0..100), gzip-compressed through Read, and gzip files cut at a random offset (expected entries = those wholly inside what the standard decompressor recovers); demanded: expected entries first and in order, >= 1 error (on the channel, or returned by Read), both channels closed; non-trivial = every case",
+		fmt.Sprintf("%d small document(s) (<= 3 entries; compact, without XML declaration in the quick tier) cut at EVERY byte offset before the end of the root element (exhaustive, %s), and, in both tiers, one small document (2 entries, "+strconv.Itoa(len(prologDoc.text))+" bytes) that starts with an XML declaration, a newline, a comment '<!-- comment -->' and a newline before the <uniprot ...> root, also cut at EVERY byte offset, so that cuts inside and right after the declaration, inside and right after the comment, in the white space before the root and inside the root start tag are all covered (each must report >= 1 error and close both channels; class stem truncated-before-root); %d larger documents (2..200 entries) damaged in or before a chosen entry: mismatched end tag, '< ' or '& ' in text, byte 0x01, missing </entry>, unterminated start tag, '<<' between entries, cut at a random offset; plain through Parse (capacities 0..100), gzip-compressed through Read, and gzip files cut at a random offset (expected entries = those wholly inside what the standard decompressor recovers); demanded: expected entries first and in order, >= 1 error (on the channel, or returned by Read), both channels closed; non-trivial = every case",
 			len(small), map[bool]string{true: "both consumers", false: "consumers alternating"}[thorough], nBig))
 	vT := newVerifRun("C20", "io/uniprot.Parse/terminates", common+"every case of the clauses entries, damaged-prefix and gzip: the consumer returns (both channels seen closed) before the deadline; non-trivial = every case")
 	vG := newVerifRun("C20", "io/uniprot.Read/post/gzip", common+"well-formed documents (k = 0..3 and every 8th k up to 200) gzip-compressed into a temp file and read through Read (capacities fixed by Read at 100/100); same demands as the entries clause; non-trivial = k >= 1")
